@@ -208,6 +208,7 @@ def benign_read(name, style, tag):
 def build_res(al, p):
     """p: {"binds": [...], "builtin": bool, "site": s, "style": s, "late": [...], "twice": bool} -> (program, ctx)"""
     binds, site, style = set(p["binds"]), p["site"], p["style"]
+    impform = p.get("impform", "name")
     late = set(p.get("late") or [])
     nm = al.builtin if p["builtin"] else al.name
     V = lambda tag: al.val(tag, style)  # noqa
@@ -349,12 +350,18 @@ def build_res(al, p):
     main = {
         "page": ("%s=%s" % (nm, V("P"))) if "page" in binds else None,
         "module": ["%s = %s" % (nm, V("M"))] if "module" in binds else [],
-        "nsimport": [["ns.html", nm]] if "import" in binds else [],
+        "nsimport": [["ns.html", {"name": nm, "star+inherited": "*, " + nm, "inherited+star": nm + ", *", "inherited": nm}[impform]] + ([] if impform == "name" else ["nsbase.html"])] if "import" in binds else [],
         "body": body + defs,
     }
     files = {"main.html": main}
     if "import" in binds:
-        files["ns.html"] = {"body": [["def", nm, "s", [T("N" + al.sfx + ":"), E("s")]]]}
+        ndef = ["def", nm, "s", [T("N" + al.sfx + ":"), E("s")]]
+        if impform == "name":
+            files["ns.html"] = {"body": [ndef]}
+        else:
+            # the imported def is one the namespace's template INHERITS: '*' does not cover it, the explicit name does
+            files["ns.html"] = {"inherit": "nsbase.html", "body": [["def", "own" + al.sfx, "", [T("own")]]]}
+            files["nsbase.html"] = {"body": [ndef]}
     ctx = {}
     if "ctx" in binds:
         ctx[nm] = al.ctxval(style)
@@ -393,6 +400,9 @@ def res_params(tier):
                             # a named block can be written only once: no second reading of it
                             for twice in ((False, True) if "assign" in binds and site != "named" else (False,)):
                                 yield {"binds": list(binds), "builtin": builtin, "site": site, "style": style, "late": late, "twice": twice}
+                                if "import" in binds and not twice and not late:
+                                    for impform in ("star+inherited", "inherited+star", "inherited"):
+                                        yield {"binds": list(binds), "builtin": builtin, "site": site, "style": style, "late": late, "twice": twice, "impform": impform}
 
 
 # --------------------------------------------------------------------------
